@@ -165,7 +165,7 @@ pub static PROFILE: Profile = Profile {
     build,
     check,
     budget: Budget { r_cases: (4000, 40000), s_cases: (3000, 10000), s_scheds: (16, 64) },
-    liveness: false,
+    liveness: true,
     enumerate: None,
     extra: None,
     borrow: &["C02", "C03", "C04", "C05", "C06", "C07", "C08", "C09", "C10", "C11", "C12", "C13", "C14", "C15", "C18", "C19"],
